@@ -271,13 +271,29 @@ def run(ctx):
                 nidx += 1
                 idx = src(sub.slice)
                 positional = None
-                for lp in ast.walk(fn):
-                    if isinstance(lp, (ast.For, ast.comprehension)) and isinstance(lp.iter, ast.Call) and call_name(lp.iter) == "enumerate" and isinstance(lp.target, ast.Tuple) and lp.target.elts and src(lp.target.elts[0]) == idx:
-                        positional = lp
+                how = ""
+                # every definition of the index: a loop target bound to an element (fine unless it is enumerate's counter), or an expression over the element only
+                loops = [lp for lp in ast.walk(fn) if isinstance(lp, (ast.For, ast.comprehension))]
+                elem_names = set()
+                for lp in loops:
+                    tn = [x.id for x in ast.walk(lp.target) if isinstance(x, ast.Name)]
+                    is_enum = isinstance(lp.iter, ast.Call) and call_name(lp.iter) == "enumerate"
+                    counter = src(lp.target.elts[0]) if is_enum and isinstance(lp.target, ast.Tuple) and lp.target.elts else None
+                    elem_names |= {n for n in tn if n != counter}
+                    if counter == idx:
+                        positional, how = lp, f"the position of the element in `{src(lp.iter)[:60]}`"
+                assigns = [a for a in ast.walk(fn) if isinstance(a, ast.Assign) and any(src(t) == idx for t in a.targets) and a.lineno < sub.lineno]
+                if assigns:
+                    positional = None
+                    for a in assigns:
+                        free = {x.id for x in ast.walk(a.value) if isinstance(x, ast.Name)} - {"int", "str", "cast"}
+                        listing_calls = [c for c in ast.walk(a.value) if isinstance(c, ast.Call) and ((isinstance(c.func, ast.Attribute) and c.func.attr in ("index", "count")) or call_name(c) in ("enumerate", "len", "range"))]
+                        if listing_calls or not free <= elem_names:
+                            positional, how = a, f"`{src(a.value)[:60]}`, which is not a function of the remote element alone"
                 r7.check(
                     positional is None,
                     f"{mod.rel}:{qn}:eval_hashes[{idx}]",
-                    f"`eval_hashes[{idx}]` uses the position of the element in `{src(positional.iter)[:60] if positional is not None else ''}` as its array index: the listing order of remote tasks is not the "
+                    f"`eval_hashes[{idx}]` uses {how} as its array index: the listing order of remote tasks is not the "
                     "submission order (e.g. sorted by name: 0, 1, 10, 2, ...), so an in-flight task is paired with the evaluation hash of a different array element and a job is reunited with a remote job "
                     "created for another evaluation",
                     mod.rel,
